@@ -81,7 +81,8 @@ def model_check(ctx):
         big.append(("mc_2p_3adds", "BadMetrics_mc.cfg", consts(Names="={1}", Producers=TWO, MaxAdds=3, MaxGets=1, Expiries="={2}",
                                                               Timely=False, Witness=True), 2))
         big.append(("mc_2p_2names", "BadMetrics_mc.cfg", consts(Producers=TWO, MaxAdds=3, MaxGets=1, MaxTime=2, Expiries="={1, 2}", Witness=True), 2))
-        big.append(("mc_2p_2gets", "BadMetrics_mc.cfg", consts(Producers=TWO, MaxGets=2, MaxTime=2, Expiries="={1, 2}", Witness=True), 2))
+        big.append(("mc_2p_3adds_2gets", "BadMetrics_mc.cfg", consts(Producers=TWO, MaxAdds=3, MaxGets=2, MaxTime=2, Expiries="={1, 2}", Witness=True), 2))
+        big.append(("mc_1p_3gets", "BadMetrics_mc.cfg", consts(MaxGets=3, Witness=True), 2))
         big.append(("mc_late_ticks", "BadMetrics_mc.cfg", consts(Timely=False, MaxTime=4, Expiries="={1, 4}", Witness=True), 2))
         big.append(("mc_age2_cap2", "BadMetrics_mc.cfg", consts(MaxAge=2, Cap=2, MaxAdds=3, MaxGets=1, MaxTime=4, Expiries="={2, 5}",
                                                                Witness=True), 2))
@@ -101,7 +102,7 @@ def model_check(ctx):
 
     def run_big(job):
         tag, cfg, c, w = job
-        return tag, ctx.tlc("BadMetrics", cfg, workers=w, timeout=ctx.pick(600, 3000), consts=c, tag=tag, expect_ok=False, heap="4g")
+        return tag, ctx.tlc("BadMetrics", cfg, workers=w, timeout=ctx.pick(600, 3000), consts=c, tag=tag, expect_ok=False, heap="4g", count=False)
 
     def run_small(job):
         tag, cfg, c, want = job
@@ -113,6 +114,10 @@ def model_check(ctx):
         if not r["ok"]:
             raise Machinery("TLC %s did not complete cleanly (violated=%s, rc=%s): the model does not satisfy its statements; log %s" % (
                 tag, temporal(r), r["rc"], r["log"]))
+        ctx.cov["states"] += r["distinct"]
+        ctx.cov["transitions"] += r["generated"]
+        ctx.cov["tlc_runs"].append(dict(module="BadMetrics", cfg=r["cfg"], distinct=r["distinct"], generated=r["generated"], wall_s=r["wall"],
+                                        ok=True, violated=None))
         for w in WITNESSES:
             if re.search(r'@@W [^\n]*\\"%s\\"' % w, r["text"]):
                 wit.add(w)
